@@ -55,7 +55,7 @@ theorem HInvP.congr_K {A : Pos → Option (Leaf H)} {C : H → Option Pos} {N : 
 
 /-! ### phase 1: `undoAdd` -/
 
-theorem undoAdd_spec (cr : CR H) {m : MapPollard H} {T : Nat} {F : Forest H} {dels adds : List H}
+theorem undoAdd_spec (nz : NZ H) {m : MapPollard H} {T : Nat} {F : Forest H} {dels adds : List H}
     {ts : List Pos} {ps : List H} (hyF : Hyg F) (hnd : dels.Nodup) (hc : F.canon dels = some (ts, ps))
     (hyp : Hyg ((F.delLeaves dels).addMany adds))
     {A : Pos → Option (Leaf H)} {C : H → Option Pos} (rep : Rep m T A C) (hfull : m.full = false)
@@ -72,7 +72,7 @@ theorem undoAdd_spec (cr : CR H) {m : MapPollard H} {T : Nat} {F : Forest H} {de
   have hT := rep.T_le
   have hG : (F.delLeaves dels).numLeaves = F.numLeaves := numLeaves_delLeaves F dels
   have hyG : Hyg (F.delLeaves dels) := hyg_delLeaves hyF dels
-  obtain ⟨E, hgw, hEs, hEm⟩ := gwoer_spec cr rep.rows hT F hyF hnd hc adds.length hnl hn63 hfit nonZero hnz
+  obtain ⟨E, hgw, hEs, hEm⟩ := gwoer_spec nz rep.rows hT F hyF hnd hc adds.length hnl hn63 hfit nonZero hnz
   have hE : E = destroyed (F.delLeaves dels) adds.length := by
     apply sorted_ext hEs (destroyed_sorted _ _)
     intro h
@@ -82,12 +82,12 @@ theorem undoAdd_spec (cr : CR H) {m : MapPollard H} {T : Nat} {F : Forest H} {de
     constructor
     · rintro ⟨hb, hd, hr⟩
       exact ⟨CalcComplete.mem_treeRows (by omega) hb,
-        (deadB_iff cr _ (by rw [hG]; omega) hyG (by rw [hG]; exact hb)).2 hd, hr⟩
+        (deadB_iff nz _ (by rw [hG]; omega) hyG (by rw [hG]; exact hb)).2 hd, hr⟩
     · rintro ⟨hrow, hd, hr⟩
       have hb := (mem_treeRows.1 hrow).2
       refine ⟨hb, ?_, hr⟩
-      exact (deadB_iff cr _ (by rw [hG]; omega) hyG (by rw [hG]; exact hb)).1 hd
-  obtain ⟨m', A', C', hrun, rep', hnl', hfl', inv', hdom'⟩ := unadd_loop cr (T := T) (F.delLeaves dels) Kp adds
+      exact (deadB_iff nz _ (by rw [hG]; omega) hyG (by rw [hG]; exact hb)).1 hd
+  obtain ⟨m', A', C', hrun, rep', hnl', hfl', inv', hdom'⟩ := unadd_loop nz (T := T) (F.delLeaves dels) Kp adds
     (by rw [hG]; exact hn63) (by rw [hG]; exact hfit) hyp rep hfull (by rw [hG]; exact hnl) inv
   rw [hG] at hnl'
   rw [froot_del] at inv'
@@ -119,7 +119,7 @@ theorem moveBackAll_dom (n : Nat) : ∀ (ds : List Pos) (A : Pos → Option (Lea
       exact moveBackAll_dom n ds A C x
 
 open MapIngest SpecPlan in
-theorem undoDeletion_spec (cr : CR H) {m : MapPollard H} {T : Nat} {F : Forest H} {dels : List H}
+theorem undoDeletion_spec (nz : NZ H) {m : MapPollard H} {T : Nat} {F : Forest H} {dels : List H}
     {ts : List Pos} {ps : List H} (hyF : Hyg F) (hnd : dels.Nodup) (hc : F.canon dels = some (ts, ps))
     (hn63 : F.numLeaves < 2 ^ 63) (hfit : F.rows ≤ T)
     {A : Pos → Option (Leaf H)} {C : H → Option Pos} (rep : Rep m T A C) (hfull : m.full = false)
@@ -134,8 +134,8 @@ theorem undoDeletion_spec (cr : CR H) {m : MapPollard H} {T : Nat} {F : Forest H
       (∀ y, (C' y).isSome = true ↔ ((C y).isSome = true ∨ y ∈ dels)) := by
   have hT := rep.T_le
   have hn64 : F.numLeaves < 2 ^ 64 := by omega
-  have Lw := laws_forest cr F hn64 hyF
-  obtain ⟨ds, hDT, hlive, hvalid, hdt⟩ := deTwin_spec_live cr F hn63 hyF hnd hc hT hfit
+  have Lw := laws_forest nz F hn64 hyF
+  obtain ⟨ds, hDT, hlive, hvalid, hdt⟩ := deTwin_spec_live nz F hn63 hyF hnd hc hT hfit
   have hmem : ∀ x, x ∈ ds.flatMap (leavesUnder F) ↔ x ∈ dels := by
     intro x
     simp only [List.mem_flatMap, mem_leavesUnder]
@@ -152,12 +152,12 @@ theorem undoDeletion_spec (cr : CR H) {m : MapPollard H} {T : Nat} {F : Forest H
     intro d hd _
     obtain ⟨t, x, ht, ha⟩ := hlive d hd
     exact ⟨t, x, ht, ha, hKp1 x (hDT.sub d hd t x ht ha)⟩
-  obtain ⟨m2, hmd, rep2, hnl2, hfull2⟩ := unremove_rep cr ds F hn63 hyF hDT.node hDT.sep _ Kp hKd hKpd m T A C rep hnl
+  obtain ⟨m2, hmd, rep2, hnl2, hfull2⟩ := unremove_rep nz ds F hn63 hyF hDT.node hDT.sep _ Kp hKd hKpd m T A C rep hnl
     hfit hfull inv0
-  have inv2 := unremove_chain cr ds F hn64 hyF hDT.node hDT.sep _ Kp hKd hKpd A C inv0
+  have inv2 := unremove_chain nz ds F hn64 hyF hDT.node hDT.sep _ Kp hKd hKpd A C inv0
   -- the targets
   have hts : ∀ t x, (t, x, true) ∈ F.nodes → x ∈ dels → t ∈ ts :=
-    fun t x ht hx => (ts_iff cr hn64 hyF hc t).2 ⟨x, hx, ht⟩
+    fun t x ht hx => (ts_iff nz hn64 hyF hc t).2 ⟨x, hx, ht⟩
   -- the hole lies in the path set
   have hole_incl : ∀ q, (∃ d ∈ ds, holeOf F.nodes d q) → q ∈ pathSet F ts := by
     rintro q ⟨d, hd, hq, h0, f0, hm⟩
@@ -184,7 +184,7 @@ theorem undoDeletion_spec (cr : CR H) {m : MapPollard H} {T : Nat} {F : Forest H
   have hk : ∀ t, KLeaf F.nodes (fun y => (C y).isSome = true) t → ¬ t ∈ pathSet F ts := by
     rintro t ⟨x, hx, hm⟩ hps
     obtain ⟨t', ht', ha⟩ := ps_anc hc hps
-    obtain ⟨x', hx', hm'⟩ := (ts_iff cr hn64 hyF hc t').1 ht'
+    obtain ⟨x', hx', hm'⟩ := (ts_iff nz hn64 hyF hc t').1 ht'
     have := Lw.leaf_below t x t' x' true hm hm' ha
     subst this
     have := (Lw.func _ _ _ _ _ hm hm').1
@@ -199,7 +199,7 @@ theorem undoDeletion_spec (cr : CR H) {m : MapPollard H} {T : Nat} {F : Forest H
     obtain ⟨b, hb⟩ := inv3.true_hash q l hl ((pp_iff q).1 hq).1
     obtain ⟨b', hb'⟩ := pp_node hc hq
     exact (Lw.func _ _ _ _ _ hb hb').1
-  obtain ⟨m', hrun, rep', hnl', hfl'⟩ := MapUndoDel.undoDeletion_rep cr rep.rows hT hnl hn63 hfit hyF hnd hc hdt hmd rep2
+  obtain ⟨m', hrun, rep', hnl', hfl'⟩ := MapUndoDel.undoDeletion_rep nz rep.rows hT hnl hn63 hfit hyF hnd hc hdt hmd rep2
     hnl2 hfull2 hpp
   obtain ⟨_, hpos, _, _⟩ := SpecPlan.canon_spec hc
   refine ⟨m', _, _, hrun, rep', hnl', hfl', ?_, ?_⟩
@@ -214,7 +214,7 @@ theorem undoDeletion_spec (cr : CR H) {m : MapPollard H} {T : Nat} {F : Forest H
       · rw [if_pos h]
         obtain ⟨p, hp⟩ := hpos x h
         rw [hp]; rfl
-    · exact ts_iff cr hn64 hyF hc
+    · exact ts_iff nz hn64 hyF hc
     · exact fun q hq => ps_node hc hq
     · exact fun q hq => ps_anc hc hq
     · exact fun t ht => SpecPlan.targets_sub_pathSet (canon_targetsOK hc) ht
@@ -313,7 +313,7 @@ theorem liveLeaves_addMany (G : Forest H) (adds : List H) : (G.addMany adds).liv
 `F.modify dels adds`; undoing the additions `adds` and the deletions `dels` (with the canonical proof
 of `dels` in `F` and the roots of `F`) gives a state that tracks `F`, and the cache is
 `(K \ adds) ∪ dels`. -/
-theorem sinv_undo (cr : CR H) {m : MapPollard H} {F : Forest H} {dels adds : List H} {ts : List Pos} {ps : List H}
+theorem sinv_undo (nz : NZ H) {m : MapPollard H} {F : Forest H} {dels adds : List H} {ts : List Pos} {ps : List H}
     (s : SInv m (F.modify dels adds)) (hyF : Hyg F) (hnd : dels.Nodup) (hc : F.canon dels = some (ts, ps))
     (nonZero : H) (hnz : nonZero ≠ (zero : H)) :
     ∃ m', MapPollard.undo nonZero (BitVec.ofNat 64 adds.length) (ts.map (encP F.rows)) ps dels F.roots m = (m', .ok ()) ∧
@@ -331,7 +331,7 @@ theorem sinv_undo (cr : CR H) {m : MapPollard H} {F : Forest H} {dels adds : Lis
   have hFrows : F.rows ≤ m.totalRows.toNat :=
     Nat.le_trans (SpecView.forestRows_le (Nat.le_trans (Nat.le_add_right _ _) (SpecView.le_two_pow_forestRows _))) hfit
   have hnl : m.numLeaves = BitVec.ofNat 64 (F.numLeaves + adds.length) := by rw [← hFm]; exact s.n_eq
-  have Lw := laws_forest cr F hn64 hyF
+  have Lw := laws_forest nz F hn64 hyF
   have hyG : Hyg (F.delLeaves dels) := hyg_delLeaves hyF dels
   -- live leaves
   have hllm : (F.modify dels adds).liveLeaves = (F.delLeaves dels).liveLeaves ++ adds := liveLeaves_addMany _ _
@@ -357,7 +357,7 @@ theorem sinv_undo (cr : CR H) {m : MapPollard H} {F : Forest H} {dels adds : Lis
   have inv0 : HInvP A C ((F.delLeaves dels).addMany adds).nodes (FRoot ((F.delLeaves dels).addMany adds))
       (fun y => (C y).isSome = true) Kp (fun _ => False) :=
     HInvP.of_hinv (HInv.of_ainv ainv) (fun x h => Or.inl h)
-  obtain ⟨m1, A1, C1, hrun1, rep1, hnl1, hfl1, inv1, hdom1⟩ := undoAdd_spec cr hyF hnd hc s.hyg rep s.full hnl hn63 hfit
+  obtain ⟨m1, A1, C1, hrun1, rep1, hnl1, hfl1, inv1, hdom1⟩ := undoAdd_spec nz hyF hnd hc s.hyg rep s.full hnl hn63 hfit
     Kp inv0 nonZero hnz
   -- phase 2
   have hCd : ∀ x, (C1 x).isSome = true → x ∉ dels := by
@@ -378,7 +378,7 @@ theorem sinv_undo (cr : CR H) {m : MapPollard H} {F : Forest H} {dels adds : Lis
     · rcases hk with hk | hk
       · refine Or.inl ((hdom1 x).2 ⟨hk, hdisj x ((hllG x).2 ⟨hleafF t x hm, hxd⟩)⟩)
       · exact absurd hk hxd
-  obtain ⟨m2, A2, C2, hrun2, rep2, hnl2, hfl2, inv2, hdom2⟩ := undoDeletion_spec cr hyF hnd hc (by omega) hFrows rep1 hfl1
+  obtain ⟨m2, A2, C2, hrun2, rep2, hnl2, hfl2, inv2, hdom2⟩ := undoDeletion_spec nz hyF hnd hc (by omega) hFrows rep1 hfl1
     hnl1 Kp (fun x hx => Or.inr hx) hKp2 hCd inv1
   -- phase 3
   have hnT : F.numLeaves ≤ 2 ^ m.totalRows.toNat := by
